@@ -329,12 +329,13 @@ func vfRunWrongKind(t *testing.T, spec *vfSpec, res *vfRes) {
 		ti := vfTarget(a)
 		pk := vfNewPacket(5000, 5000, ti.vtag)
 		what := spec.XS["what"]
+		tsn := ti.peerLast + uint32(spec.x("tsn_off", 1)) //nolint:gosec
 		switch what {
 		case "data":
 			if ti.il {
-				pk.chunk(vfCtData, 3, vfDataVal(ti.peerLast+1, 9, 0, 53, []byte("plain DATA")))
+				pk.chunk(vfCtData, 3, vfDataVal(tsn, 9, 0, 53, []byte("plain DATA")))
 			} else {
-				pk.chunk(vfCtIData, 3, vfIDataVal(ti.peerLast+1, 9, 0, 53, []byte("I-DATA")))
+				pk.chunk(vfCtIData, 3, vfIDataVal(tsn, 9, 0, 53, []byte("I-DATA")))
 			}
 		default:
 			if ti.il {
@@ -448,7 +449,9 @@ func init() { //nolint:gochecknoinits
 				sp.A.MaxMsg, sp.B.MaxMsg = 8000, 8000
 				sp.Link = vfLinkCfg{DelayUs: 10000}
 				sp.Streams = []vfStreamCfg{{SID: 1, Dir: 0, NMsgs: 30, SizeMode: "mixed", Reader: "fast", GapUs: 3000}, {SID: 2, Dir: 1, NMsgs: 30, SizeMode: "small", Reader: "fast", GapUs: 3000}}
-				sp.X = map[string]int64{"side": int64((i / 4) % 2)}
+				// where the TSN of the wrong chunk lies: next expected, already received, below the cumulative point,
+				// beyond the receive window (the kind is wrong wherever it lies)
+				sp.X = map[string]int64{"side": int64((i / 4) % 2), "tsn_off": []int64{1, 0, -5, 100000}[(i+i/4)%4]}
 				sp.XS = map[string]string{"what": []string{"data", "fwdtsn"}[(i/8)%2]}
 				out = append(out, sp)
 			}
